@@ -552,6 +552,10 @@ def multi_event_family():
         "event=[e1,e2]": base + [t_to(at, "event=['e1', 'e2']") for at in ats],
         "attr+event-param": base + [f"e1 = " + " | ".join(t_to(at, "event='e2'") for at in ats)],
         "event=[Event,str]": base + [t_to(at, "event=[Event('e1'), 'e2']") for at in ats],
+        # the separator is white space: more than one blank, or blanks around the names
+        "event='e1  e2'": base + [t_to(at, "event='e1  e2'") for at in ats],
+        "event=' e1 e2 '": base + [t_to(at, "event=' e1 e2 '") for at in ats],
+        "event=['e1 ', ' e2']": base + [t_to(at, "event=['e1 ', ' e2']") for at in ats],
     }
     return m, styles
 
